@@ -155,7 +155,7 @@ def check_C10(tier, only):
     hs = C10_EK if tier == 'thorough' else ['c10_entropy']
     cov['E-K'] = ek_part(out, 'C10', tier, [('ext', h) for h in hs], only,
                          ['C10-a: with PolyEos as Residual + IdealGas (polynomial ideal part overriding the provided ln-based method): f(Total) = f(IdealGas) + f(Residual) exactly and each part is its closed form, '
-                          'for one getter per derivative order arm of get_or_compute_derivative (quick: the first-derivative arm, entropy); p_ig = rho R T and Total = IdealGas + Residual for the pressure family (thorough)'], nsym=2, timeout=10800 if tier == 'thorough' else 3000)
+                          'for one getter per derivative order arm of get_or_compute_derivative (quick: the first-derivative arm, entropy, with concrete generic-position coefficients; thorough: 2+2 symbolic coefficients and all arms); p_ig = rho R T and Total = IdealGas + Residual for the pressure family (thorough)'], nsym=2 if tier == 'thorough' else 0, timeout=10800 if tier == 'thorough' else 3000)
     out.coverage = cov
     return out.finish()
 
@@ -171,7 +171,7 @@ def check_C01(tier, only):
                    'C01-c: derivative parts computed through Dual/HyperDual/Dual3<Sym> have the homogeneity degree implied by first-order homogeneity of A (p, mu: 0; dp/dV, dmu/dN: -1; S: 1; ...)'],
                   ['residual_helmholtz_energy_contributions<Sym>, <Dual<Sym,f64>>, <HyperDual<Sym,f64>>, <Dual3<Sym,f64>>'],
                   {'components': 2})
-    hs = C01_EK if tier == 'thorough' else ['c01_pressure_res', 'c01_dp_dt_res', 'c01_residual_entropy']
+    hs = C01_EK if tier == 'thorough' else ['c01_pressure_res', 'c01_dp_dv_res', 'c01_residual_entropy']
     ekc = ek_part(out, 'C01', tier, [('ext', h) for h in hs], only,
                   ['C01-a: verification model PolyEos (polynomial A of degree <= 3 in V,T,N0,N1; %s leading coefficients symbolic in [-3,3], the rest generic-position primes), state at powers of two: '
                    'every getter must return exactly the closed-form partial derivative (sign, seeding, cache key)' % ('4' if tier == 'thorough' else '1')],
@@ -612,16 +612,14 @@ C10_EK = ['c10_helmholtz_energy', 'c10_entropy', 'c10_ds_dt', 'c10_d2s_dt2', 'c1
 def check_C11(tier, only):
     out = Outcome('C11', tier, 'model_checking')
     inc = ['c11_cache_history_1', 'c11_cache_history_2', 'c11_cache_history_2_reach', 'c11_cache_history_clone_2']
-    ext = []   # getter-level history harnesses cost > 45 min each on this machine: thorough tier only
+    pairs = json.load(open(os.path.join(VERIF, 'kani', 'c11_pairs.json')))
+    ext = [p['name'] for p in pairs if tier == 'thorough' or p['tier'] == 'quick']
     if tier == 'thorough':
         inc += ['c11_cache_history_3', 'c11_cache_history_3_reach']
-        ext = ['c11_h_dpdv_then_pressure', 'c11_h_dpdni_then_mu', 'c11_h_dpdni_then_pressure', 'c11_h_dmudt_then_entropy', 'c11_h_dmudni_then_mu', 'c11_h_d2pdv2_then_dpdv', 'c11_h_d2sdt2_then_dsdt',
-               'c11_h_dsdt_then_entropy', 'c11_h_dpdt_then_entropy', 'c11_h_dpdt_then_pressure', 'c11_h_mu_then_a', 'c11_h_dmudni_diag_then_mixed', 'c11_h_dmudni_mixed_then_diag', 'c11_h_dpdv_then_d2pdv2',
-               'c11_h_pressure_then_dpdni']
     cov = ek_part(out, 'C11', tier, [('incrate', h) for h in inc] + [('ext', h) for h in ext], only,
                   ['cache level (in-crate): every history of <= %d calls of Cache::get_or_insert_with_{f64,d64,d2_64,hd64,hd364} with symbolic method, symbolic Derivative keys (2 components) and an oracle of arbitrary f64 '
                    'bit patterns returns bitwise the oracle value of the requested key; also across a clone taken between calls' % (3 if tier == 'thorough' else 2),
-                   'getter level: g after h and g on a clone taken before/after h equal the closed form (PolyEos, generic-position coefficients; component indices and clone position symbolic)',
+                   'getter level: for 12 (quick) / all 156 (thorough) ordered pairs (h, g) of the 13 residual getters: g after h on the same state, on a clone taken before h and on a clone taken after h equals the closed form (PolyEos, concrete generic-position coefficients and component indices: the solver decides the compiled plumbing, not the values)',
                    'thread schedules are not covered (Kani does not model concurrency): not claimed'],
                   timeout=7200 if tier == 'thorough' else 2400)
     cov.setdefault('states', 1); cov.setdefault('transitions', 1)
